@@ -430,18 +430,52 @@ class Interp:
         ev.normal = ta.normal
         tmap: FactMap = {}
         fmap: FactMap = {}
-        const = _const_truth(test)
+        line = getattr(test, "lineno", 0)
         for fact, trace in ev.normal.items():
-            tr = (trace + (getattr(test, "lineno", 0),))[-TRACE_MAX:] if (not trace or trace[-1] != getattr(test, "lineno", 0)) else trace
-            t, f = self.a.branch(test, fact)
-            if const is not False and t is not None:
-                for x in t:
-                    fm_add(tmap, x, tr)
-            if const is not True and f is not None:
-                for x in f:
-                    fm_add(fmap, x, tr)
+            tr = (trace + (line,))[-TRACE_MAX:] if (not trace or trace[-1] != line) else trace
+            ts, fs = self._refine(test, [fact])
+            for x in ts:
+                fm_add(tmap, x, tr)
+            for x in fs:
+                fm_add(fmap, x, tr)
         ev.normal = {}
         return ev, tmap, fmap
+
+    def _refine(self, test: ast.AST, facts: list) -> tuple[list, list]:
+        """(facts on the true edge, facts on the false edge); `and` / `or` / `not` are decomposed so that the
+        analysis' branch() only ever sees the leaves."""
+        const = _const_truth(test)
+        if const is True:
+            return list(facts), []
+        if const is False:
+            return [], list(facts)
+        if isinstance(test, ast.BoolOp):
+            cur = list(facts)
+            if isinstance(test.op, ast.And):
+                false_out: list = []
+                for v in test.values:
+                    t, f = self._refine(v, cur)
+                    false_out += f
+                    cur = t
+                return cur, false_out
+            true_out: list = []
+            for v in test.values:
+                t, f = self._refine(v, cur)
+                true_out += t
+                cur = f
+            return true_out, cur
+        if isinstance(test, ast.UnaryOp) and isinstance(test.op, ast.Not) and isinstance(test.operand, ast.BoolOp):
+            t, f = self._refine(test.operand, facts)
+            return f, t
+        ts: list = []
+        fs: list = []
+        for fact in facts:
+            t, f = self.a.branch(test, fact)
+            if t is not None:
+                ts += list(t)
+            if f is not None:
+                fs += list(f)
+        return ts, fs
 
     def st_If(self, st: ast.If, facts: FactMap) -> Out:
         out, t, f = self._branch(st.test, facts)
